@@ -170,6 +170,24 @@ def WFflat (T : Tables) (depth : Nat) (ids : List Nat) : Prop := wfCount T depth
 instance (T : Tables) (depth : Nat) (ids : List Nat) : Decidable (WFflat T depth ids) :=
   inferInstanceAs (Decidable (wfCount T depth ids = true))
 
+/-- `scopesClosed ids`: every replication descriptor at the top level of `ids` finds its factor (when
+    YYY = 0) and its full `XX` ids inside `ids`, so that no scope reaches beyond the end of the list
+    (FM-94: "the next XX descriptors" exist).  A list with this property can be spliced in front of
+    another one without changing its meaning (`C01_flat_append`). -/
+def scopesClosed (ids : List Nat) : Bool :=
+  match ids with
+  | [] => true
+  | id :: rest =>
+    if 100000 ≤ id ∧ id < 200000 then
+      if yOf id = 0 then
+        match rest with
+        | [] => false
+        | _ :: rest' => decide (xOf id ≤ rest'.length) && scopesClosed (rest'.drop (xOf id))
+      else decide (xOf id ≤ rest.length) && scopesClosed (rest.drop (xOf id))
+    else scopesClosed rest
+termination_by ids.length
+decreasing_by all_goals (simp only [List.length_drop, List.length_cons]; omega)
+
 /-- is the id a composite (replication or sequence descriptor)? -/
 def isComposite (id : Nat) : Bool := (100000 ≤ id && id < 200000) || 300000 ≤ id
 
